@@ -1032,6 +1032,14 @@ impl Stamp {
     /// The stamp of a nonexistent file.
     pub const MISSING: Stamp = Stamp(Cow::Borrowed("0"));
 
+    /// The stamp recorded for a target while its build is in progress.
+    ///
+    /// It never equals the stamp of a file, so that anything that examines
+    /// the target before the result of the build has been recorded (a
+    /// parallel job, another redo, or the next run after a kill) finds it
+    /// dirty instead of trusting a half-updated record.
+    pub const BUILDING: Stamp = Stamp(Cow::Borrowed("building"));
+
     fn from_metadata(metadata: &fs::Metadata) -> Result<Stamp, RedoError> {
         use std::os::unix::fs::MetadataExt;
 
@@ -1080,6 +1088,10 @@ impl Stamp {
     /// overridden in that case, so we return `false`.  (It's still dirty though!)
     pub(crate) fn detect_override(stamp1: &Stamp, stamp2: &Stamp) -> bool {
         if stamp1 == stamp2 {
+            return false;
+        }
+        if stamp1 == &Stamp::BUILDING || stamp2 == &Stamp::BUILDING {
+            // An interrupted build, not an edit by the user.
             return false;
         }
         let crit1 = stamp1.0.splitn(3, '-').take(2);
